@@ -22,7 +22,7 @@ EXPLANATION += ' R5: no seed is tested for truthiness (seed 0 is honoured).'
 EXPLANATION += " R3's weighted-choice rule accepts a strict linear scan or a right bisection; the interval evaluator models `u or c` (u in [0,1), c > 0) as excluding 0."
 
 RND = "coba/random.py"
-PURE_IMPORT_MODULES = {"math", "itertools", "operator", "typing", "time", "bisect", "functools", "collections", "numbers", "abc", "heapq"}
+PURE_IMPORT_MODULES = {"math", "itertools", "operator", "typing", "time", "bisect", "functools", "collections", "numbers", "abc", "heapq", "struct"}
 
 
 def run(ctx):
@@ -104,6 +104,11 @@ def r1_effects(ctx):
            stmt=f"scan {len(ctx.model.modules)} modules")
     # module functions delegate to the module instance only
     for (rel, qual), fn in sorted(ctx.model.functions.items()):
+        if rel == RND and "." not in qual and qual.startswith("_"):
+            touches = [y for y in ast.walk(fn) if isinstance(y, ast.Name) and y.id in ("_random",)] + [y for y in ast.walk(fn) if isinstance(y, ast.Attribute) and y.attr in ("_randu", "_randg")] + \
+                      [y for y in ast.walk(fn) if isinstance(y, (ast.Global, ast.Nonlocal))]
+            ctx.ob("C05.R1", RND, qual, fn, "private module helper is a pure function (reads no generator, declares no global)", not touches, stmt=f"def {qual}")
+            continue
         if rel == RND and "." not in qual and qual != "seed":
             rets = [x for x in walk_shallow(fn) if isinstance(x, ast.Return)]
             ok = len(rets) == 1 and isinstance(rets[0].value, ast.Call) and unparse(rets[0].value.func) == f"_random.{qual}"
@@ -185,6 +190,16 @@ class Abs:
                 if len(ds) == 1:
                     return self.ev(ds[0])
             raise Unproved(f"unknown name {e.id}")
+        if isinstance(e, ast.IfExp) and isinstance(e.test, ast.BoolOp) and isinstance(e.test.op, ast.Or) and len(e.test.values) == 2:
+            # `v if v < B or <contract-excluded case> else w`: when the second disjunct contradicts the assumed contract (e.g. `max <= min` under max > min)
+            # the conditional is `v if v < B else w`
+            first, second = e.test.values
+            if isinstance(second, ast.Compare) and len(second.ops) == 1 and isinstance(second.ops[0], (ast.LtE, ast.GtE)):
+                lo_e, hi_e = (second.left, second.comparators[0]) if isinstance(second.ops[0], ast.LtE) else (second.comparators[0], second.left)   # lo_e <= hi_e
+                a_, b_ = self.ev(lo_e), self.ev(hi_e)
+                if a_.lo == a_.hi and b_.lo == b_.hi and self.pos(a_.lo - b_.lo):   # contract says lo_e > hi_e: the disjunct is false
+                    return self.ev(ast.IfExp(test=first, body=e.body, orelse=e.orelse))
+            raise Unproved(f"conditional not modelled: {unparse(e)}")
         if isinstance(e, ast.IfExp) and isinstance(e.test, ast.Compare) and len(e.test.ops) == 1 and (
                 (isinstance(e.test.ops[0], ast.Lt) and unparse(e.test.left) == unparse(e.body)) or
                 (isinstance(e.test.ops[0], ast.Gt) and unparse(e.test.comparators[0]) == unparse(e.body))):
@@ -208,6 +223,13 @@ class Abs:
                 return v.floor_int()
             if nm in ("float",) and len(e.args) == 1:
                 return self.ev(e.args[0])
+            if nm == "_next_below" and len(e.args) == 1:
+                # the largest float below b: with the contract a < b (a the lower bound in the environment) it lies in [a, b)
+                b_ = self.ev(e.args[0])
+                lows = [v for k, v in self.env.items() if k == "min"]
+                if b_.lo == b_.hi and lows and lows[0].lo == lows[0].hi and self.pos(b_.lo - lows[0].lo):
+                    return Itv(lows[0].lo, b_.hi, False, True, False)
+                raise Unproved("_next_below of a bound not known to exceed the lower bound")
             if nm in ("math.nextafter", "nextafter") and len(e.args) == 2:
                 # nextafter(b, a) with a < b: the largest float below b -- inside [a, b)
                 b_, a_ = self.ev(e.args[0]), self.ev(e.args[1])
@@ -404,9 +426,27 @@ def r3_intervals(ctx):
         ctx.ob("C05.R3", RND, "CobaRandom.random", r, "random() in [min,max)", ok, detail=d)
         # floating point: the rounded sum is compared with max before it is returned (the interval argument above is over the reals)
         v = r.value
-        guarded = isinstance(v, ast.IfExp) and isinstance(v.test, ast.Compare) and len(v.test.ops) == 1 and canon(unparse(v.test)) == canon(f"{unparse(v.body)} < max") \
-            and unparse(v.orelse) in ("math.nextafter(max, min)", "nextafter(max, min)")
+        t0 = v.test.values[0] if isinstance(v, ast.IfExp) and isinstance(v.test, ast.BoolOp) and isinstance(v.test.op, ast.Or) else (v.test if isinstance(v, ast.IfExp) else None)
+        extra = v.test.values[1:] if isinstance(v, ast.IfExp) and isinstance(v.test, ast.BoolOp) and isinstance(v.test.op, ast.Or) else []
+        guarded = isinstance(v, ast.IfExp) and isinstance(t0, ast.Compare) and len(t0.ops) == 1 and canon(unparse(t0)) == canon(f"{unparse(v.body)} < max") \
+            and all(canon(unparse(x_)) in (canon("max <= min"), canon("min >= max")) for x_ in extra) \
+            and unparse(v.orelse) in ("math.nextafter(max, min)", "nextafter(max, min)", "_next_below(max)")
         ctx.ob("C05.R3", RND, "CobaRandom.random", r, "rounding guard: a rounded sum that reaches max is replaced by the largest float below max", guarded, stmt="random() rounding guard")
+    # the predecessor helper: the float below x is one step in the BIT PATTERN -- down for positive x, up (in magnitude) for negative x; a multiplicative
+    # shortcut x*(1-2**-53) moves towards zero, i.e. ABOVE a negative max
+    if ctx.model.has_func(RND, "_next_below"):
+        nb = ctx.fn(RND, "_next_below")
+        X = nb.args.args[0].arg
+        packs = [c for c in ast.walk(nb) if isinstance(c, ast.Call) and (call_name(c) or "").endswith(("pack", "unpack"))]
+        steps = [e for e in ast.walk(nb) if isinstance(e, ast.IfExp) and isinstance(e.body, ast.BinOp) and isinstance(e.orelse, ast.BinOp)
+                 and isinstance(e.body.op, ast.Sub) and isinstance(e.orelse.op, ast.Add) and unparse(e.body.right) == "1" and unparse(e.orelse.right) == "1"
+                 and canon(unparse(e.test)) in (canon(f"{X} > 0"),)]
+        via_nextafter = [c for c in ast.walk(nb) if isinstance(c, ast.Call) and (call_name(c) or "").endswith("nextafter")]
+        zero = any(isinstance(t, ast.If) and canon(unparse(t.test)) == canon(f"{X} == 0") for t in ast.walk(nb))
+        muls = [b for b in ast.walk(nb) if isinstance(b, ast.BinOp) and isinstance(b.op, ast.Mult)]
+        ok_nb = (bool(via_nextafter) or (len(packs) >= 4 and len(steps) == 1 and zero)) and not muls
+        ctx.ob("C05.R3", RND, "_next_below", nb, "the float below x is found by stepping the bit pattern (down for x > 0, up for x < 0, zero handled), not by scaling x", ok_nb,
+               detail={"pack/unpack calls": len(packs), "sign-aware step": len(steps), "products": [unparse(m_) for m_ in muls]}, stmt="_next_below bit step")
     # --- randoms: element = min + diff*U through the conditional maps
     fn = ctx.fn(RND, "CobaRandom.randoms")
     ok, d = _randoms_shape(fn)
@@ -567,9 +607,9 @@ def _randoms_shape(fn):
         elif isinstance(v, ast.ListComp) and unparse(v.generators[0].iter) == OUT and isinstance(v.elt, ast.IfExp) and isinstance(v.generators[0].target, ast.Name):
             e, x = v.elt, v.generators[0].target.id
             below = assigned_value(fn, e.orelse.id) if isinstance(e.orelse, ast.Name) else [e.orelse]
-            if unparse(e.body) == x and canon(unparse(e.test)) == canon(f"{x} < max") and len(below) == 1 and unparse(below[0]) in ("math.nextafter(max, min)", "nextafter(max, min)") \
+            if unparse(e.body) == x and canon(unparse(e.test)) == canon(f"{x} < max") and len(below) == 1 and unparse(below[0]) in ("math.nextafter(max, min)", "nextafter(max, min)", "_next_below(max)") \
                     and g and all(p and {canon(unparse(cj)) for cj in (ast.parse(t, mode="eval").body.values if isinstance(ast.parse(t, mode="eval").body, ast.BoolOp) and isinstance(ast.parse(t, mode="eval").body.op, ast.And) else [ast.parse(t, mode="eval").body])}
-                                  <= {canon("min != 0"), canon("n is not None")} for t, p in g) and any(canon("min != 0") in canon(t) for t, p in g):
+                                  <= {canon("min != 0"), canon("n is not None"), canon("min < max")} for t, p in g) and any(canon("min != 0") in canon(t) for t, p in g):
                 # the guard may only skip the pass where the shift stage was skipped too (min == 0) or nothing was materialised: any further narrowing
                 # (e.g. by the width of the range) leaves rounded sums equal to max un-clamped
                 kind = "round-guard"
@@ -755,7 +795,8 @@ def r6_generator_ownership(ctx, rule="C05.R6"):
 
 
 CONTROLS = [
-    ("randoms clamps only very narrow ranges", RND, M.replace_expr("CobaRandom.randoms", "min != 0 and n is not None", "min != 0 and n is not None and diff < abs(max) * 2 ** (-30)"), "C05.R3"),
+    ("float predecessor by scaling", RND, M.replace_stmt("_next_below", lambda st: isinstance(st, ast.Return) and "unpack" in ast.unparse(st), "return x * (1 - 2 ** (-53))"), "C05.R3"),
+    ("randoms clamps only very narrow ranges", RND, M.replace_expr("CobaRandom.randoms", "min != 0 and n is not None and (min < max)", "min != 0 and n is not None and (min < max) and diff < abs(max) * 2 ** (-30)"), "C05.R3"),
     ("weighted choice through the bound float.__lt__", RND, M.replace_expr("CobaRandom.choice", "partial(lt, next(self._randu) * tot)", "(next(self._randu) * tot).__lt__"), "C05.R3"),
     ("re-wrapping carries on with the inner wrapper's generator", "coba/safety.py", M.replace_expr("SafeLearner.__init__", "CobaRandom(seed)", "learner._rng if isinstance(learner, SafeLearner) else CobaRandom(seed)"), "C05.R6"),
     ("shuffle early return of the input", RND, M.replace_stmt("CobaRandom.shuffle", M.text_has("if n < 2"), "if n < 2:\n    return items"), "C05.R3"),
@@ -766,7 +807,7 @@ CONTROLS = [
     ("shuffle range to 0", RND, M.replace_expr("CobaRandom.shuffle", "range(n, 1, -1)", "range(n, 0, -1)"), "C05.R3"),
     ("choicew mismatched weight", RND, M.replace_expr("CobaRandom.choicew", "(seq[i], weights[i])", "(seq[i], weights[0])"), "C05.R3"),
     ("random without the rounding guard", RND, M.replace_stmt("CobaRandom.random", lambda st: isinstance(st, ast.Return), "return value"), "C05.R3"),
-    ("randoms without the rounding guard", RND, M.delete_stmt("CobaRandom.randoms", lambda st: isinstance(st, ast.If) and "nextafter" in ast.unparse(st)), "C05.R3"),
+    ("randoms without the rounding guard", RND, M.delete_stmt("CobaRandom.randoms", lambda st: isinstance(st, ast.If) and "_next_below" in ast.unparse(st)), "C05.R3"),
     ("random scaled by max-min+1 and not cut off", RND, M.chain(M.replace_expr("CobaRandom.random", "max - min", "max - min + 1"), M.replace_stmt("CobaRandom.random", lambda st: isinstance(st, ast.Return), "return value")), "C05.R3"),
     ("second draw for prob", "coba/learners/utilities.py", M.replace_expr("PMFPredictor.predict",
         "self._pmfrng.choicew(actions, self._pmfcall(context, actions))",
